@@ -633,6 +633,33 @@ static void build(vf::Plan &plan, const vf::Opts &o)
     }
 
     // every format letter
+    // precisions far beyond anything a fixed-size field could hold (the precision travels through the library as a number and as
+    // digits of a printf format string): every power of two up to 2^17 with its neighbours
+    {
+        static const int BIGP[] = {999, 1000, 4095, 4096, 4097, 9999, 10000, 32767, 32768, 32769, 65534, 65535, 65536, 65537, 70000, 99999, 100000, 131071, 131072, 131073};
+        enum { NBIGP = sizeof BIGP / sizeof *BIGP };
+        static const double BV[5] = {1.0, 0.75, 1.0 / 3, 1e100, -2.5e-7};
+        plan.stage(strf("format:very large precisions (%u values from 999 to 131073) x {f,e,E,default} x {double,float} x 5 values x {none, width = precision + 10}", (unsigned)NBIGP),
+                   (uint64_t)NBIGP * 4 * 2 * 5 * 2,
+                   [](uint64_t i, Ctx &c) {
+                       Spec sp;
+                       sp.precision = BIGP[vf::take(i, NBIGP)];
+                       sp.notation = (int)vf::take(i, 4);
+                       bool fl = vf::take(i, 2) != 0;
+                       double v = BV[vf::take(i, 5)];
+                       if (i) {
+                           sp.width = sp.precision + 10;
+                           sp.align = 1;
+                       }
+                       if (fl) check_format<float>(c, (float)v, sp);
+                       else check_format<double>(c, v, sp);
+                       c.nontrivial();
+                   },
+                   [](uint64_t i) {
+                       int p = BIGP[vf::take(i, NBIGP)];
+                       return strf("precision %d, notation #%u", p, (unsigned)vf::take(i, 4));
+                   });
+    }
     plan.stage("from:all-256-letters-x-24-values-x{from_double,from_float}", 256ull * NPADVALS * 2,
                [](uint64_t i, Ctx &c) {
                    unsigned letter = (unsigned)vf::take(i, 256);
